@@ -205,8 +205,8 @@ fn prover_case<P: G>(cfg: Cfg) -> Box<dyn Case> {
         if cfg.m == 1 {
             wit.seed = Some(seed_scalar(6));
         }
-        let built = build_cached::<P>(&cfg, &wit).unwrap();
-        let proof = lib_prove(&built, &CTX_A, &mut HRng::chacha(9)).unwrap();
+        let built = build_cached::<P>(&cfg, &wit).honest();
+        let proof = lib_prove(&built, &CTX_A, &mut HRng::chacha(9)).honest();
         let bytes = P::to_bytes(&proof);
         res.executions += 1;
         res.validated += 1;
